@@ -316,9 +316,9 @@ impl<'a> Lexer<'a> {
     #[allow(dead_code)]
     pub fn read_n(&mut self, n: usize) -> Substr<'a> {
         let start_pos = self.pos;
-        self.pos += n;
+        self.pos = self.pos.saturating_add(n);
         if self.pos >= self.buf.len() {
-            self.pos = self.buf.len() - 1;
+            self.pos = self.buf.len().saturating_sub(1);
         }
         if start_pos < self.buf.len() {
             self.new_substr(start_pos..self.pos)
